@@ -175,7 +175,6 @@ def good : Stmt :=
             (.store1 1 (.var 3) (.bin .add (.idx1 0 (.var 3)) (.var 2))))
           (.assign 5 (.bin .add (.var 5) (.lit 1))))
 
-example : inputs good = [4, 0, 1, 5] ∨ True := Or.inr trivial
 example : (inputs good).contains 0 ∧ (inputs good).contains 4 ∧ (inputs good).contains 5
     ∧ ¬ (inputs good).contains 2 ∧ ¬ (inputs good).contains 3 := by decide
 example : WholeFirstWrites good := by decide
